@@ -83,6 +83,7 @@ func runC07(r *Run) {
 		}
 	}
 	collect(tr)
+	fns = r.withPackageHelpers(fns)
 	r.R.SetCount("Transform closures analysed", len(fns)-1)
 	r.R.Floor(P+".closures.floor", "instance floor", len(fns)-1, 10, "closures of Transform")
 
@@ -467,7 +468,7 @@ func hasFloatBound(set core.FactSet, op string, want float64) bool {
 func (r *Run) checkSortKey(P string, tr *ssa.Function, fns []*ssa.Function) {
 	var lexFn, parseObj *ssa.Function
 	for _, f := range fns {
-		if len(f.Params) == 2 && f.Params[0].Type().String() == "[]uint16" {
+		if len(f.Params) >= 2 && f.Params[0].Type().String() == "[]uint16" {
 			lexFn = f
 		}
 	}
@@ -848,6 +849,10 @@ func fixedErrCalls(f, setErr, checkErr *ssa.Function) []*ssa.Call {
 			}
 			t := closureCallTarget(c)
 			if t == nil {
+				// a reporter handed in as a parameter (the function was a closure that captured it)
+				if prm, isP := c.Common().Value.(*ssa.Parameter); isP && setErr != nil && paramAlwaysIs(f, prm, setErr) {
+					out = append(out, c)
+				}
 				continue
 			}
 			if setErr != nil && t == setErr {
@@ -921,4 +926,141 @@ func isFixedErrCall(c *ssa.Call, f, setErr, checkErr *ssa.Function) bool {
 		}
 	}
 	return false
+}
+
+// withPackageHelpers adds the unexported functions of the canonicalizer package that the closure tree calls directly
+// (a closure moved to package level is still part of the parser).
+func (r *Run) withPackageHelpers(fns []*ssa.Function) []*ssa.Function {
+	have := map[*ssa.Function]bool{}
+	for _, f := range fns {
+		have[f] = true
+	}
+	out := fns
+	for _, f := range fns {
+		for _, b := range f.Blocks {
+			for _, ins := range b.Instrs {
+				c, ok := ins.(*ssa.Call)
+				if !ok {
+					continue
+				}
+				g := c.Common().StaticCallee()
+				if g == nil || g.Blocks == nil || have[g] || g.Pkg != fns[0].Pkg || g.Parent() != nil || !r.P.IsSubject(g) {
+					continue
+				}
+				if o := g.Object(); o == nil || o.Exported() {
+					continue
+				}
+				have[g] = true
+				out = append(out, g)
+			}
+		}
+	}
+	return out
+}
+
+// paramAlwaysIs: every call of f in its package passes the closure g for parameter prm.
+func paramAlwaysIs(f *ssa.Function, prm *ssa.Parameter, g *ssa.Function) bool {
+	idx := -1
+	for i, p := range f.Params {
+		if p == prm {
+			idx = i
+		}
+	}
+	if idx < 0 || f.Pkg == nil {
+		return false
+	}
+	n := 0
+	okAll := true
+	var visit func(h *ssa.Function)
+	visit = func(h *ssa.Function) {
+		for _, b := range h.Blocks {
+			for _, ins := range b.Instrs {
+				c, isC := ins.(*ssa.Call)
+				if !isC || c.Common().StaticCallee() != f {
+					continue
+				}
+				n++
+				if idx >= len(c.Common().Args) || closureValueTarget(c.Parent(), c.Common().Args[idx]) != g {
+					okAll = false
+				}
+			}
+		}
+		for _, a := range h.AnonFuncs {
+			visit(a)
+		}
+	}
+	for _, m := range f.Pkg.Members {
+		if h, isF := m.(*ssa.Function); isF {
+			visit(h)
+		}
+	}
+	return n > 0 && okAll
+}
+
+// closureValueTarget: the function a function-typed value is (a closure made in place, a function, or a load of a
+// variable that holds exactly one of them).
+func closureValueTarget(in *ssa.Function, v ssa.Value) *ssa.Function {
+	switch x := v.(type) {
+	case *ssa.MakeClosure:
+		return x.Fn.(*ssa.Function)
+	case *ssa.Function:
+		return x
+	}
+	// reuse the resolver for calls: build the question as "what would a call of v target"
+	u, ok := v.(*ssa.UnOp)
+	if !ok {
+		return nil
+	}
+	var al *ssa.Alloc
+	switch a := u.X.(type) {
+	case *ssa.Alloc:
+		al = a
+	case *ssa.FreeVar:
+		al = allocOfFreeVar(in, a)
+	}
+	if al == nil {
+		return nil
+	}
+	var target *ssa.Function
+	n := 0
+	root := al.Parent()
+	var fs []*ssa.Function
+	var collect func(f *ssa.Function)
+	collect = func(f *ssa.Function) {
+		fs = append(fs, f)
+		for _, a := range f.AnonFuncs {
+			collect(a)
+		}
+	}
+	collect(root)
+	for _, f := range fs {
+		for _, b := range f.Blocks {
+			for _, ins := range b.Instrs {
+				st, ok := ins.(*ssa.Store)
+				if !ok {
+					continue
+				}
+				same := st.Addr == ssa.Value(al)
+				if fv, ok := st.Addr.(*ssa.FreeVar); ok && freeVarBinds(f, fv, al) {
+					same = true
+				}
+				if !same {
+					continue
+				}
+				if mc, ok := st.Val.(*ssa.MakeClosure); ok {
+					n++
+					target = mc.Fn.(*ssa.Function)
+				} else if fn, ok := st.Val.(*ssa.Function); ok {
+					n++
+					target = fn
+				} else if !isNilConstV(st.Val) {
+					n += 2
+				}
+			}
+		}
+	}
+	if n == 1 {
+		return target
+	}
+	return nil
 }
